@@ -3,7 +3,7 @@ malformed stream.  Every random choice comes from one random.Random seeded from 
 import json, random
 from core import hx, World
 
-NAMES = ['TestA', 'TestAB', 'TestX/[a]', 'TestV2', 'TestA/case_2', 'TestR/ratio/1.25', 'TestA/x', 'TestA/x/y', 'TestA/x#01', 'TestB', 'TestB/sub_case', 'Test1', 'Test01',
+NAMES = ['TestZ/v01', 'TestZ/v1', 'TestN/case_9', 'TestN/case_10', 'TestN/case_100', 'TestI/index[0]', 'TestA', 'TestAB', 'TestX/[a]', 'TestV2', 'TestA/case_2', 'TestR/ratio/1.25', 'TestA/x', 'TestA/x/y', 'TestA/x#01', 'TestB', 'TestB/sub_case', 'Test1', 'Test01',
          'Test10', 'TestZ/a/b/c', 'TestLong/with_some-chars.and:colon', 'TestÜnicode/ß', 'TestA/x_-_1', 'Test_x']
 PCT_NAMES = ['TestP/100%_done', 'TestQ/%d', 'TestR/50%s']
 UNRECOGNISED = ['FuzzX/seed#0', 'BenchmarkY', 'ExampleZ']
@@ -27,6 +27,13 @@ class Gen:
             return r.choice([b'[T - 1', b'[TestA - 1', b'TestA - 1]', b'[TestA - x]', b'[Test]', b'[]', b'[Test - ', b'[ - 1]'])
         if k < 0.36 and 'shadow' in allow and ids:
             return b'[' + r.choice(list(ids)) + b']'
+        if k < 0.39:
+            # header-like lines of slots that exist nowhere (a log quoting some other test)
+            return r.choice([b'[TestGhost - 7]', b'[TestLogin - 2]', b'[TestA/never - 1]'])
+        if k < 0.42 and ids:
+            # lines CONTAINING the header of a slot in play without being equal to it
+            i = r.choice(list(ids))
+            return r.choice([b'see also [' + i + b']', b'[' + i + b'] was here', b' [' + i + b']', b'[' + i + b'] ', b'x[' + i + b']y'])
         if k < 0.46:
             return bytes(r.choice([0x80, 0xff, 0xfe, 0xc3, 0x28, 0xe2, 0x82, 0x00, 0x1b, 0x7f, 0x41, 0x20]) for _ in range(r.randint(1, 8)))
         if k < 0.50:
